@@ -51,6 +51,13 @@ CHECKS = {
          "consistency, element-wise segment bookkeeping, independent scatter/gather reference for SubManifold, copy / cast identity and "
          "mutate-after-copy independence.",
     design="4/C07", technique="explicit-state enumeration over configuration families x finite input products against reference models"),
+ "C08": dict(
+    text="Bounded exhaustive enumeration: 26 (function, argument-type tuple) spaces with closed-form derivatives (log, action, products, rminus, "
+         "exp*g, polynomial maps, scalar products; SO3/SE2/SE3/Bundle/Vector3d/VectorXd/double/std::vector<SE2d> in 1-3 argument mixes) x "
+         "evaluation points from the alphabets within the statement's premises x const/non-const reference masks x every non-empty index "
+         "subset x K in {0,1,2} x Numerical / Analytic / Default(with and without provided derivatives): derivative accuracy against reference "
+         "Jacobians in long double, subset = columns of the full result, K=0 exact, analytic matrices verbatim, arguments restored.",
+    design="4/C08", technique="explicit-state enumeration of configuration families x finite input products against closed-form references"),
  "C09": dict(
     text="Bounded exhaustive enumeration of 214 problems x start menus x 45 option triples x 2 strategies x 4 differentiation modes from "
          "fresh strategy state, plus an explicit-state BFS over trust-region strategy states reachable by prefix solves (history depth 2, states "
